@@ -272,6 +272,42 @@ def keyed_publish_ok(w: Write, ef):
     return True, ''
 
 
+def own_dict_cache_ok(w: Write, ef):
+    """`cls.F = <value>` for a class-level field F that only this statement stores: a per-class lazy table is accepted when the store is guarded by
+    `'F' not in <cls>.__dict__` (the class's OWN dictionary - a test through attribute lookup would resolve in a base class and hand a derived type its
+    base's table), the value does not depend on call arguments, and the stored object is not edited afterwards.  Returns (ok, reason)."""
+    st = w.node
+    if not (isinstance(st, ast.Assign) and len(st.targets) == 1 and isinstance(st.targets[0], ast.Attribute)):
+        return False, 'not a plain store'
+    f = w.func
+    g = cfg_of(f.node)
+    node = g.node_of_stmt.get(st)
+    if node is None:
+        return False, 'statement not found'
+    fld = st.targets[0].attr
+    own = any(t.kind == 'test' and lab == 'F' and isinstance(t.ast, ast.Compare) and isinstance(t.ast.ops[0], ast.In) and const_value(t.ast.left) == fld and
+              unparse(dom.expand(g, t.ast.comparators[0], t)).endswith('.__dict__') for t, lab in dom.guards_of(g, node))
+    if not own:
+        return False, f"not guarded by `'{fld}' not in <class>.__dict__`"
+    params = set(f.params[1:]) if f.cls is not None and not f.is_staticmethod else set(f.params)
+    used = {n.id for n in ast.walk(st.value) if isinstance(n, ast.Name)}
+    # a local computed before the store: follow it one level
+    for d in [x for nm in used for x in dom.reaching_defs(g, nm, node) if isinstance(x.ast, ast.Assign)]:
+        used |= {n.id for n in ast.walk(d.ast.value) if isinstance(n, ast.Name)}
+    if used & params:
+        return False, f"the value depends on call argument(s) {sorted(used & params)}"
+    aliases = {st.value.id} if isinstance(st.value, ast.Name) else set()
+    loc = unparse(st.targets[0])
+    for n in g.reachable(node) - {node}:
+        for e in n.exprs():
+            for c in walk_local(e):
+                if isinstance(c, ast.Call) and isinstance(c.func, ast.Attribute) and c.func.attr in MUTATORS and unparse(c.func.value) in aliases | {loc}:
+                    return False, f"`{short(c, 50)}` edits the table after it was published"
+                if isinstance(c, ast.Subscript) and isinstance(c.ctx, (ast.Store, ast.Del)) and unparse(c.value) in aliases | {loc}:
+                    return False, f"`{short(c, 50)}` edits the table after it was published"
+    return True, ''
+
+
 def check_shared_state(ctx, cg, ef, rule: str, entries=None):
     """Every shared write of the API closure is one of the enumerated lazy caches and has the publish shape."""
     res = ctx.res
@@ -292,6 +328,12 @@ def check_shared_state(ctx, cg, ef, rule: str, entries=None):
             owners = '/'.join(sorted(w.owners)) or w.root
             if w.func.name == '__init__' and w.root == 'self':
                 continue       # a constructor initialising its own object
+            if w.how == 'store' and w.root == 'class' and not any((o, w.field) in LAZY_CACHES for o in w.owners):
+                ok_o, why_o = own_dict_cache_ok(w, ef)
+                if ok_o:
+                    res.ok(rule, w.func.fq, f"`{short(w.node, 60)}` fills a per-class lazy table kept in the class's own dictionary (guarded by `'{w.field}' not in "
+                           "<class>.__dict__`, argument-independent, not edited afterwards)")
+                    continue
             if w.how == 'store[]' and w.root == 'class':
                 ok_k, why_k = keyed_publish_ok(w, ef)
                 if ok_k:
